@@ -38,6 +38,10 @@ pub struct Plan {
     pub boot_delays: Vec<(usize, u64)>,
     /// When > 0: proposals take this long (they are the big messages), everything else 1..10 ms.
     pub propose_delay_ms: u64,
+    /// (arm time, delay) in ms: the first node that puts a timeout certificate on the wire after the
+    /// arm time (and before GST) crashes `delay` ms later, i.e. in the middle of disseminating it
+    /// (class s3c).  The crash that actually happened is added to `crashes` after the run.
+    pub crash_on_tc: Option<(u64, u64)>,
 }
 
 fn faults_tolerated(stakes: &[u32]) -> u64 {
@@ -102,6 +106,7 @@ pub fn plan(class: &str, seed: u64, p: &Params) -> Plan {
         sync_retry_ms: p.get_u64("sync_retry_ms").unwrap_or(5_000),
         boot_delays: Vec::new(),
         propose_delay_ms: 0,
+        crash_on_tc: None,
     };
     let f_nodes = pick_faulty(&mut rng, &stakes, n);
     match class {
@@ -161,6 +166,34 @@ pub fn plan(class: &str, seed: u64, p: &Params) -> Plan {
                 }
             }
         }
+        "s3c" => {
+            // As s3 with heavy pre-GST delays:
+            // all but one of the tolerated crashes are nodes that never start; the last one is the
+            // first node that broadcasts a timeout certificate after a random arm time, and it
+            // crashes 20..400 ms later: frames it wrote that are still in flight (slow links) are
+            // lost with it, so the certificate reaches only some of the live nodes.
+            plan.gst_ms = rng.gen_range(duration_ms / 10, duration_ms / 3);
+            plan.slow_prob = [0.15, 0.3, 0.45][rng.gen_range(0, 3)];
+            plan.slow_hi_ms = timeout_ms * rng.gen_range(2, 6);
+            let f = faults_tolerated(&stakes);
+            let mut used = 0u64;
+            let mut reserve_ok = false;
+            // keep room for one more crashed authority of the largest stake
+            let max_stake = *stakes.iter().max().unwrap() as u64;
+            if f >= max_stake {
+                reserve_ok = true;
+                for node in f_nodes.iter() {
+                    if used + stakes[*node] as u64 + max_stake <= f {
+                        used += stakes[*node] as u64;
+                        plan.crashes.push((*node, 0));
+                    }
+                }
+            }
+            if reserve_ok {
+                let arm = rng.gen_range(3 * timeout_ms, plan.gst_ms.max(3 * timeout_ms + 1));
+                plan.crash_on_tc = Some((arm, rng.gen_range(20, 400)));
+            }
+        }
         "s4" => {
             // isolate single nodes / split off minorities for random intervals, then heal.
             let episodes = rng.gen_range(1, 4);
@@ -190,7 +223,7 @@ pub fn plan(class: &str, seed: u64, p: &Params) -> Plan {
     }
     // Late boots (s2 / s3): one or two live nodes start their consensus a fraction of a timeout after
     // the others, so that round timers are out of phase from the beginning.
-    if (class == "s2" || class == "s3") && rng.gen_bool(0.5) {
+    if (class == "s2" || class == "s3" || class == "s3c") && rng.gen_bool(0.5) {
         let crashed: Vec<usize> = plan.crashes.iter().map(|x| x.0).collect();
         let live: Vec<usize> = (0..n).filter(|x| !crashed.contains(x)).collect();
         for _ in 0..rng.gen_range(1, 3) {
@@ -208,6 +241,8 @@ pub struct Outcome {
     pub topo: std::sync::Arc<crate::world::Topo>,
     pub honest: Vec<usize>,
     pub store_of: HashMap<String, usize>,
+    /// (node, virtual ms) of the crash triggered by `Plan::crash_on_tc`, if it happened.
+    pub triggered_crash: Option<(usize, u64)>,
 }
 
 pub fn execute(plan: &Plan, seed: u64) -> Outcome {
@@ -240,6 +275,59 @@ pub fn execute(plan: &Plan, seed: u64) -> Outcome {
                     Some(network::simnet::FrameDecision::Deliver { delay_ms: if is_propose { pd } else { rng.gen_range(1, 11) } })
                 }));
             }
+        }
+        // Class s3c: crash the first node that broadcasts a TC after the arm time, shortly afterwards.
+        let triggered: std::sync::Arc<std::sync::Mutex<Option<(usize, u64)>>> = Default::default();
+        if let Some((arm_ms, delay_ms)) = plan.crash_on_tc {
+            let armed = std::sync::Arc::new(std::sync::atomic::AtomicBool::new(false));
+            let victim: std::sync::Arc<std::sync::Mutex<Option<usize>>> = Default::default();
+            {
+                let (armed, victim) = (armed.clone(), victim.clone());
+                // Per receiver: is the victim's link to it one of the slow ones (decided at the trigger)?
+                let mut slow_to: HashMap<usize, bool> = HashMap::new();
+                cluster.ctl.lock().unwrap().frame_hook = Some(Box::new(move |ctx, rng| {
+                    if !armed.load(std::sync::atomic::Ordering::SeqCst) || ctx.route.svc != crate::world::SVC_CONSENSUS || ctx.dir != network::simnet::Dir::ToServer || ctx.frame.len() < 4 {
+                        return None;
+                    }
+                    // bincode enum tags: 0 = ConsensusMessage::Propose, 3 = ConsensusMessage::TC
+                    let tag = [ctx.frame[0], ctx.frame[1], ctx.frame[2], ctx.frame[3]];
+                    let mut v = victim.lock().unwrap();
+                    if v.is_none() && tag == [3, 0, 0, 0] {
+                        *v = Some(ctx.sender());
+                    }
+                    if *v == Some(ctx.sender()) && (tag == [3, 0, 0, 0] || tag == [0, 0, 0, 0]) {
+                        // The certificate (and a proposal carrying it) travels fast on some of the
+                        // victim's links and is still in flight on the others when the victim dies:
+                        // both are delays the pre-GST period allows.
+                        let slow = *slow_to.entry(ctx.receiver()).or_insert_with(|| rng.gen_bool(0.5));
+                        let delay_ms = if slow { delay_ms + rng.gen_range(200, 1000) } else { rng.gen_range(1, 20) };
+                        return Some(network::simnet::FrameDecision::Deliver { delay_ms });
+                    }
+                    None
+                }));
+            }
+            let (ctl, triggered, gst_ms) = (cluster.ctl.clone(), triggered.clone(), plan.gst_ms);
+            let t0 = tokio::time::Instant::now();
+            tokio::spawn(async move {
+                sleep(Duration::from_millis(arm_ms)).await;
+                armed.store(true, std::sync::atomic::Ordering::SeqCst);
+                loop {
+                    sleep(Duration::from_millis(2)).await;
+                    let v = *victim.lock().unwrap();
+                    if let Some(node) = v {
+                        sleep(Duration::from_millis(delay_ms)).await;
+                        let now = t0.elapsed().as_millis() as u64;
+                        evlog::note(format!("fault crash [{}] (triggered by its TC broadcast)", node));
+                        net::isolate(&ctl, node);
+                        *triggered.lock().unwrap() = Some((node, now));
+                        break;
+                    }
+                    if t0.elapsed().as_millis() as u64 + 500 >= gst_ms {
+                        break; // no view change between the arm time and GST: no triggered crash in this run
+                    }
+                }
+                armed.store(false, std::sync::atomic::Ordering::SeqCst);
+            });
         }
         // Timeline of fault events.
         let mut timeline: Vec<(u64, String, Vec<usize>)> = Vec::new();
@@ -293,7 +381,8 @@ pub fn execute(plan: &Plan, seed: u64) -> Outcome {
         let topo = cluster.topo.clone();
         let log = evlog::end();
         drop(cluster);
-        Outcome { log, topo, honest, store_of }
+        let triggered_crash = *triggered.lock().unwrap();
+        Outcome { log, topo, honest, store_of, triggered_crash }
     })
 }
 
@@ -400,6 +489,10 @@ pub fn check_c06(plan: &Plan, out: &Outcome, r: &mut Report) {
     if plan.propose_delay_ms > 0 {
         r.sit("C06:proposals_slower_than_other_messages");
     }
+    if plan.crash_on_tc.is_some() && plan.crashes.iter().any(|(_, at)| *at > 0) {
+        r.sit("C06:crash_while_broadcasting_tc");
+        r.count("C06.crashes_while_broadcasting_tc", 1);
+    }
 }
 
 /// C07 (cluster part): after isolation ends and a settling period, the recovering node's
@@ -476,8 +569,11 @@ pub fn check_c07(plan: &Plan, out: &Outcome, r: &mut Report) {
 
 pub fn run(class: &str, seed: u64, p: &Params) -> RunResult {
     let t0 = std::time::Instant::now();
-    let plan = plan(class, seed, p);
+    let mut plan = plan(class, seed, p);
     let out = execute(&plan, seed);
+    if let Some((node, at)) = out.triggered_crash {
+        plan.crashes.push((node, at.max(1)));
+    }
     let ctx = Ctx { topo: &out.topo, honest: out.honest.clone(), store_of: out.store_of.clone(), log: &out.log };
     let (mut report, _ix) = monitors::check_all(&ctx);
     check_c06(&plan, &out, &mut report);
